@@ -66,6 +66,13 @@ CLEAN = [
     {'name': 'collection-ops-with-deleted-and-required', 'schema': 'S1',
      'ops': [["new", 0, 1, [[5, ["i", 0]]]], ["new", 0, 2, [[5, ["i", 0]]]], ["new", 5, 1, [[1, ["o", 0]]]], ["new", 4, 1, [[1, ["o", 0]]]],
              ["new", 2, 1, []], ["commit"], ["del", 4], ["rem", 0, 10, [2]], ["add", 1, 9, [3]], ["set", 0, 10, ["os", []]], ["add", 4, 1, [0]]]},
+    {'name': 'set-many-single-closure', 'schema': 'S1',
+     'ops': [["new", 0, 1, [[5, ["i", 0]]]], ["new", 3, 1, [[1, ["o", 0]]]], ["new", 1, 1, []], ["setm", 0, [[6, ["o", 2]], [8, ["n"]]]]]},
+    {'name': 'cascade-on-column-side-then-deleted-partner', 'schema': 'S3',
+     'ops': [["new", 0, 1, []], ["new", 5, 1, [[1, ["o", 0]]]], ["commit"], ["new", 5, 2, []], ["del", 2], ["set", 0, 3, ["o", 2]]]},
+    {'name': 'cascade-refusal-with-unique-child', 'schema': 'S3',
+     'ops': [["new", 1, 1, []], ["new", 3, 1, [[1, ["o", 0]], [3, ["i", 1]]]], ["new", 3, 2, [[1, ["o", 0]], [3, ["i", 2]]]], ["new", 2, 1, [[1, ["o", 0]]]],
+             ["commit"], ["set", 2, 3, ["i", 0]], ["del", 0], ["new", 3, 3, [[1, ["o", 0]], [3, ["i", 1]]]]]},
     {'name': 's2-composite-and-cascading-one-to-one', 'schema': 'S2',
      'ops': [["new", 0, 1, [[3, ["i", 0]], [4, ["i", 1]], [8, ["i", 0]]]], ["new", 0, 2, [[3, ["i", 1]], [4, ["i", 1]], [8, ["i", 1]]]],
              ["new", 4, 1, [[1, ["o", 0]]]], ["new", 1, 1, [[1, ["o", 1]]]], ["commit"],
